@@ -241,21 +241,37 @@ class Gen:
             kinds = ["as", "id", "at"]
         else:
             o = O(b=var_for((o_["k"], o_["v"])))
+        # aliases: a fresh name, or (value-consistently, so that the join is satisfiable) the variable that already
+        # stands for the extracted value: AT for the instant, ID / TYPE for the string, AS for the value itself
+        def al(key):
+            if key is not None and r.random() < 0.35:
+                return var_for(key)
+            return self.alias(pool, 0.05)
+
+        sty, sid_ = bqlu.NODES[s_ - 1]
         if r.random() < p_alias:
-            s["as"] = self.alias(pool, 0.05)
+            s["as"] = al(("N", s_))
         if r.random() < p_alias:
-            s["ty"] = self.alias(pool, 0.05)
+            s["ty"] = al(("S", sty))
         if r.random() < p_alias:
-            s["id"] = self.alias(pool, 0.05)
+            s["id"] = al(("S", sid_))
         if r.random() < p_alias:
-            p["as"] = self.alias(pool, 0.05)
+            p["as"] = al(("P", p_))
         if r.random() < p_alias:
-            p["id"] = self.alias(pool, 0.05)
+            p["id"] = al(("S", pid))
         if r.random() < p_alias and not p["bd"]:
-            p["at"] = self.alias(pool, 0.05)
+            p["at"] = al(("T", n) if tmp else None)
         for k in kinds:
             if r.random() < p_alias:
-                o[k] = self.alias(pool, 0.05)
+                key = None
+                if k == "as":
+                    key = (o_["k"], o_["v"])
+                elif o_["k"] == "N":
+                    key = ("S", bqlu.NODES[o_["v"] - 1][0 if k == "ty" else 1]) if k in ("ty", "id") else None
+                elif o_["k"] == "P":
+                    oe = bqlu.PREDS[o_["v"] - 1]
+                    key = ("S", oe[0]) if k == "id" else (("T", oe[2]) if k == "at" and oe[1] else None)
+                o[k] = al(key)
         return clause(s, p, o, opt)
 
     def content(self, lo=5, hi=11):
